@@ -3,7 +3,8 @@
    damages one copy per fault, and records per fault ONE line: the damage descriptor (class and record index, derived
    from the record layout it wrote), what wal.ReplayWALDir delivered (entry numbers; 0 = matches no appended entry in
    type, key, value and number), whether engine.NewEngineFacade succeeded, what every key read as, the same after
-   further acknowledged writes + clean close + second open, and whether the undamaged files are still in place.
+   further acknowledged writes (at that moment also what WAL.GetEntriesFrom(1) returns through the live log - what a
+   primary serves to a joining replica) + clean close + second open, and whether the undamaged files are still in place.
    A "log" line carries the layout the following "fault" lines refer to.  Every fault line is judged with the
    operators of KevoWalReader (Required, IsPrefix, IsSubSeq, StateAfter); the verdicts are printed as
    <<"REJECT", line, {reasons}>> and the run is accepted by the POSTCONDITION once every line has been judged. *)
@@ -47,6 +48,8 @@ Reasons(L, F) ==
   \cup (IF F.open1 /\ F.acked /\ ~(Len(F.d2) >= L.npost /\ SubSeq(F.d2, Len(F.d2) - L.npost + 1, Len(F.d2)) = PostIds(L))
         THEN {"post2: writes acknowledged after the recovery are not delivered by the next replay"} ELSE {})
   \cup (IF F.open1 /\ F.acked /\ F.open2 /\ Known(L, F.d2) /\ ~StateIs(L, F.d2, F.st2) THEN {"state2: the engine after the second opening does not show the delivered entries"} ELSE {})
+  \cup (IF F.open1 /\ F.acked /\ (~F.gok \/ F.g # F.d2)
+        THEN {"from1: reading the live log from sequence 1 does not yield what a replay of the directory yields"} ELSE {})
   \cup (IF ~F.kept THEN {"kept: an undamaged log file was removed or changed"} ELSE {})
 
 TInit == TLCSet(1, 0) /\ l = 1 /\ cur = [e |-> "none"]
